@@ -48,7 +48,7 @@ PROPS = {
         'title': 'history independence',
         'rule': 'one case = a history of 1-8 (thorough 1-12) calls on one thread through 11 entry points (accepted, rejected, state-polluting '
                 'inputs; raw-parser calls refill one buffer so texts share their address) followed by a probe that is re-run alone on a fresh OS thread; '
-                'non-trivial = every case (the probe always runs on a thread with residue); distinct by hash of (history texts, probe, entry)',
+                'non-trivial = every case (the probe always runs on a thread with residue); one history in twelve repeats a failing call 3-300 times; distinct by hash of (history texts, probe, entry)',
         'evaluations_key': 'histories',
         'floors': {'quick': {'histories': 3000, 'probes_after_calls_with_other_include_paths': 100, 'probes_editing_the_buffer_in_place': 100, 'probes_on_dirty_state': 2500, 'probes_with_version_residue': 200, 'probes_at_reused_address': 400, 'histories_with_a_repeated_failing_call': 500},
                    'thorough': {'histories': 90000, 'probes_with_version_residue': 5000}},
@@ -79,7 +79,7 @@ PROPS = {
     'C15': {
         'title': 'incomplete mode',
         'rule': 'one case = one source (shared tree workload plus token/byte-mutated and valid+broken concatenations); incomplete mode must not return Error::Parse, '
-                'must tile a prefix that strict parsing accepts as the same tree, must equal strict mode where strict accepts, and must ignore a junk suffix; distinct by hash of (text, grammar)',
+                'must tile a prefix that strict parsing accepts as the same tree, must equal strict mode where strict accepts, and must ignore a junk suffix; junk tails are unlexable or lexable but unparsable (colon without label, closers, stray end keywords); distinct by hash of (text, grammar)',
         'evaluations_key': 'inputs',
         'floors': {'quick': {'incomplete_trees': 3000, 'inputs_with_keywords_directive_in_dead_branch': 100, 'proper_prefix_trees': 1000, 'strict_accepted': 1200, 'junk_suffix_checked': 1200, 'junk_lexable': 500, 'prefix_reparsed': 3000},
                    'thorough': {'incomplete_trees': 80000, 'proper_prefix_trees': 25000}},
@@ -134,7 +134,7 @@ PROPS = {
     'C05': {
         'title': 'macro expansion',
         'rule': 'one case = one G-PP program in the macro profile (0-3 formals with/without defaults, actuals with nested brackets/strings/commas/usages, bodies with continuation lines, '
-                'pasting, stringification, plain strings naming formals, nested usages, redefinition between uses, the three misuse shapes); non-trivial = contains a usage and was compared in full; distinct by hash of source',
+                'pasting, stringification, plain strings naming formals, nested usages, redefinition between uses, the three misuse shapes); non-trivial = contains a usage and was compared in full; one case in twelve is a usage between two plain tokens with known white-space/comment runs on either side (bytes around the expansion compared); distinct by hash of source',
         'evaluations_key': 'programs',
         'floors': {'quick': {'programs': 150000, 'usages': 40000, 'function_like_defines': 40000, 'agree_with_reference': 100000, 'expected_errors': 5000, 'ws_usages_checked': 15000},
                    'thorough': {'programs': 3500000, 'usages': 900000}},
@@ -170,7 +170,7 @@ PROPS = {
     'C09': {
         'title': 'bounded recursion',
         'rule': 'one case = one constructed input of a family (macro chain depth 1..80, include chain 1..80 levels, macro cycles of length 1..8, include cycles 1..5, '
-                'include x macro mixes, three macro->include cycles; then random parameters up to 130) with the expectation known by construction; the depth sweep 1..80 of both chain families is enumerated completely in every run; '
+                'include x macro mixes, three macro->include cycles; then random parameters up to 130) with the expectation known by construction; the depth sweep 1..80 of both chain families is enumerated completely in every run; one case in three follows 1-60 failed calls on the same thread; '
                 'distinct by (family, parameter)',
         'evaluations_key': 'cases_run',
         'dead_worker_is_violation': True,
@@ -186,7 +186,7 @@ PROPS = {
     'C10': {
         'title': '`include',
         'rule': 'one case = one of four sub-workloads in real directory trees under the worker temp dir: (a) search rule: the same file name present in any subset of {cwd, 3 include dirs} with distinct payloads, random include-path order/subset, three naming styles, absolute paths, sub-directories, worker chdir()s into the tree; '
-                '(b) random include graphs (<= 5 files, nested, same file twice, macro-named) with defines flowing in and out, compared with the G-PP reference semantics; (c) same-line rule with 13 kinds of neighbour before/after; (d) ignore_include with non-existent targets; distinct by hash of sources + placement',
+                '(b) random include graphs (<= 5 files, nested, same file twice, macro-named) with defines flowing in and out, compared with the G-PP reference semantics; (c) same-line rule with 13 kinds of neighbour before/after; (d) ignore_include with non-existent targets; the search-rule family makes a second call on the same thread after the spliced copy was rewritten in place or removed; distinct by hash of sources + placement',
         'evaluations_key': 'cases',
         'floors': {'quick': {'search_rule_cases': 6000, 'search_rule_agree': 6000, 'search_rule_second_call_after_rewrite': 1000, 'search_rule_second_call_after_removal': 500, 'missing_file_errors': 1000, 'include_graph_cases': 8000, 'includes': 15000, 'agree_with_reference': 7000,
                              'same_line_cases': 4000, 'include_line_errors': 1200, 'ignore_include_cases': 2000},
@@ -211,7 +211,7 @@ PROPS = {
     },
     'C20': {
         'title': 'entry points agree',
-        'rule': 'one case = one file written to the worker directory (tree workload, include + comment + macro-from-include, G-PP program, rejected program, file faults, library map, junk suffix) run through all members of the parse family for the 4 (ignore_include, allow_incomplete) values and through preprocess / preprocess_str for the 4 (strip_comments, ignore_include) values: 16 comparisons of canonical results per case; distinct by hash of (contents, kind)',
+        'rule': 'one case = one file written to the worker directory (tree workload, include + comment + macro-from-include, G-PP program, rejected program, file faults, library map, junk suffix) run through all members of the parse family for the 4 (ignore_include, allow_incomplete) values and through preprocess / preprocess_str for the 4 (strip_comments, ignore_include) values: 16 comparisons of canonical results per case; one input in eight with a hostile first/last byte sequence (BOM, NUL, Ctrl-Z, CR, no final newline); distinct by hash of (contents, kind)',
         'evaluations_key': 'comparisons',
         'floors': {'quick': {'inputs': 11000, 'inputs_rewritten_in_place': 500, 'inputs_with_edge_prefix': 300, 'inputs_with_edge_suffix': 300, 'comparisons': 170000, 'accepted_configs': 10000, 'flag_sensitive_inputs': 1500, 'kind:file-fault': 800, 'kind:lib': 800},
                    'thorough': {'inputs': 280000}},
@@ -235,7 +235,7 @@ PROPS = {
     'C13': {
         'title': 'reserved words are never identifiers',
         'rule': 'one case = (i) a batch of the exhaustive sweep all 248 words x 8 version specifiers x 3 name positions (enumerated completely in every run), or (ii) a program of 1-3 Verilog-1995 modules inside nested / sequential `begin_keywords regions, preceded by kept directives incl. `resetall, with one identifier at a name position replaced by a word reserved in the set in force (must be rejected) or reserved only later (must be accepted as that simple identifier), or '
-                '(iii) the tree monitor (version stack replayed over tree order, every simple identifier looked up in the vendored tables) on accepted trees of the shared workload and of every base program; distinct by hash of the mutant',
+                '(iii) the tree monitor (version stack replayed over tree order, every simple identifier looked up in the vendored tables) on accepted trees of the shared workload and of every base program; plus twin programs (the same word at a name position on both sides of a keyword-set boundary); distinct by hash of the mutant',
         'evaluations_key': 'cases',
         'floors': {'quick': {'sweep_cases': 5952, 'region_programs': 4500, 'mutation_pairs': 4000, 'mutation_pairs_after_an_open_region': 200, 'reserved_word_rejected': 2500, 'later_word_accepted_as_identifier': 800, 'identifiers_checked': 150000, 'trees_scanned': 1000, 'twin_second_side_rejected': 500},
                    'thorough': {'sweep_cases': 5952, 'mutation_pairs': 120000}},
